@@ -2,7 +2,7 @@
    SaveBlock's TxIndex.ConnectBlock, TxIndex.DisconnectBlock of the same block
    cannot fail ("no entry for the transaction") when the block's transaction
    ids are distinct.  Proofs only; the model is model/Ledger.v. *)
-From Coq Require Import List NArith Bool.
+From Coq Require Import List ZArith NArith Bool Arith.
 From ELA Require Import model.Ledger proof.Ledger_unspent proof.C13_Ledger.
 Import ListNotations.
 Local Open Scope N_scope.
@@ -57,3 +57,116 @@ Example txidx_disconnect_duplicate_fails :
   let b := mkBlock 2 1 1 [t; t] in
   match txidx_disconnect (txidx_connect (fun _ => None) b) b with Err => True | _ => False end.
 Proof. vm_compute. exact I. Qed.
+
+(* ---------------------------------------------------------------- per-address index: progress *)
+(* UtxoIndex.ConnectBlock / DisconnectBlock fail only when FetchTx has no
+   entry for a referenced transaction (Err) or the output index is out of
+   range (Panic).  With every input of every non-coinbase transaction resolved
+   by the given fetch function, neither can happen. *)
+Definition refs_resolved (fetch : N -> option (N * tx)) (b : block) : Prop :=
+  forall t op, In t (b_txs b) -> t_cb t = false -> In op (t_ins t) ->
+    exists rh rt ro, fetch (fst op) = Some (rh, rt) /\ nth_error (t_outs rt) (N.to_nat (snd op)) = Some ro.
+
+Lemma utxo_connect_ins_ok fetch db ins : forall l,
+  (forall op : outpoint, In op ins -> exists rh rt ro, fetch (fst op) = Some (rh, rt) /\ nth_error (t_outs rt) (N.to_nat (snd op)) = Some ro) ->
+  exists l', fold_left (fun r (op : outpoint) => bind r (fun l =>
+        match fetch (fst op) with
+        | None => Err
+        | Some (rh, rt) =>
+            match nth_error (t_outs rt) (N.to_nat (snd op)) with
+            | None => Panic
+            | Some ro => Ok (aset akey_eqb l (o_addr ro, rh) (swap_pop_u (aget db l (o_addr ro, rh)) (fst op) (snd op)))
+            end
+        end)) ins (Ok l) = Ok l'.
+Proof.
+  induction ins as [|op r IH]; intros l H; simpl.
+  - eexists; reflexivity.
+  - destruct (H op (or_introl eq_refl)) as (rh & rt & ro & Hf & Hn). rewrite Hf, Hn.
+    apply IH. intros op' Hin. apply H. right; exact Hin.
+Qed.
+
+Lemma utxo_disconnect_ins_ok fetch db ins : forall l,
+  (forall op : outpoint, In op ins -> exists rh rt ro, fetch (fst op) = Some (rh, rt) /\ nth_error (t_outs rt) (N.to_nat (snd op)) = Some ro) ->
+  exists l', fold_left (fun r (op : outpoint) => bind r (fun l =>
+        match fetch (fst op) with
+        | None => Err
+        | Some (rh, rt) =>
+            match nth_error (t_outs rt) (N.to_nat (snd op)) with
+            | None => Panic
+            | Some ro => if (o_val ro =? 0)%Z then Ok l
+                         else Ok (aset akey_eqb l (o_addr ro, rh)
+                                    (aget db l (o_addr ro, rh) ++ [mkU (fst op) (snd op) (o_val ro)]))
+            end
+        end)) ins (Ok l) = Ok l'.
+Proof.
+  induction ins as [|op r IH]; intros l H; simpl.
+  - eexists; reflexivity.
+  - destruct (H op (or_introl eq_refl)) as (rh & rt & ro & Hf & Hn). rewrite Hf, Hn.
+    destruct (o_val ro =? 0)%Z; apply IH; intros op' Hin; apply H; right; exact Hin.
+Qed.
+
+Definition tx_resolved (fetch : N -> option (N * tx)) (t : tx) : Prop :=
+  t_cb t = false -> forall op : outpoint, In op (t_ins t) ->
+    exists rh rt ro, fetch (fst op) = Some (rh, rt) /\ nth_error (t_outs rt) (N.to_nat (snd op)) = Some ro.
+
+Lemma utxo_connect_tx_ok fetch db h loc t : tx_resolved fetch t ->
+  exists loc', utxo_connect_tx fetch db h (Ok loc) t = Ok loc'.
+Proof.
+  intro H. unfold utxo_connect_tx. cbn [bind]. destruct (t_cb t) eqn:Ecb.
+  - eexists; reflexivity.
+  - apply utxo_connect_ins_ok. exact (H Ecb).
+Qed.
+
+Lemma utxo_disconnect_tx_ok fetch db h loc t : tx_resolved fetch t ->
+  exists loc', utxo_disconnect_tx fetch db h (Ok loc) t = Ok loc'.
+Proof.
+  intro H. unfold utxo_disconnect_tx. cbn [bind]. destruct (t_cb t) eqn:Ecb.
+  - eexists; reflexivity.
+  - apply utxo_disconnect_ins_ok. exact (H Ecb).
+Qed.
+
+Theorem utxo_connect_ok fetch db b : refs_resolved fetch b -> exists ad, utxo_connect fetch db b = Ok ad.
+Proof.
+  intro H. unfold utxo_connect.
+  assert (Hf : forall txs loc, (forall t, In t txs -> In t (b_txs b)) ->
+             exists loc', fold_left (utxo_connect_tx fetch db (b_height b)) txs (Ok loc) = Ok loc').
+  { induction txs as [|t r IH]; intros loc Hsub; cbn [fold_left].
+    - eexists; reflexivity.
+    - destruct (utxo_connect_tx_ok fetch db (b_height b) loc t) as [l' Hl'].
+      + intros Ecb op Hin. apply (H t op); [apply Hsub; left; reflexivity | exact Ecb | exact Hin].
+      + rewrite Hl'. apply IH. intros t' Ht'. apply Hsub. right; exact Ht'. }
+  destruct (Hf (b_txs b) [] (fun t Ht => Ht)) as [loc' Hloc']. exists (awriteback db loc').
+  exact (f_equal (fun r => bind r (fun loc => Ok (awriteback db loc))) Hloc').
+Qed.
+
+Theorem utxo_disconnect_ok fetch db b : refs_resolved fetch b -> exists ad, utxo_disconnect fetch db b = Ok ad.
+Proof.
+  intro H. unfold utxo_disconnect.
+  assert (Hf : forall txs loc, (forall t, In t txs -> In t (b_txs b)) ->
+             exists loc', fold_left (utxo_disconnect_tx fetch db (b_height b)) txs (Ok loc) = Ok loc').
+  { induction txs as [|t r IH]; intros loc Hsub; cbn [fold_left].
+    - eexists; reflexivity.
+    - destruct (utxo_disconnect_tx_ok fetch db (b_height b) loc t) as [l' Hl'].
+      + intros Ecb op Hin. apply (H t op); [apply Hsub; left; reflexivity | exact Ecb | exact Hin].
+      + rewrite Hl'. apply IH. intros t' Ht'. apply Hsub. right; exact Ht'. }
+  destruct (Hf (b_txs b) [] (fun t Ht => Ht)) as [loc' Hloc']. exists (awriteback db loc').
+  exact (f_equal (fun r => bind r (fun loc => Ok (awriteback db loc))) Hloc').
+Qed.
+
+(* the hypothesis is what GetTxReference establishes (refs_known), seen
+   through the index extended with the block's own transactions *)
+Lemma refs_known_resolved (s : state) b :
+  (forall t, In t (b_txs b) -> t_cb t = false -> refs_known s t = true) ->
+  (forall t, In t (b_txs b) -> s_txidx s (t_id t) = None) ->
+  refs_resolved (txidx_connect (s_txidx s) b) b.
+Proof.
+  intros Hk Hfresh t op Ht Ecb Hin. specialize (Hk t Ht Ecb). unfold refs_known in Hk.
+  rewrite forallb_forall in Hk. specialize (Hk op Hin).
+  destruct (s_txidx s (fst op)) as [[rh rt]|] eqn:E; [|discriminate].
+  apply Nat.ltb_lt in Hk. destruct (nth_error (t_outs rt) (N.to_nat (snd op))) as [ro|] eqn:En.
+  - exists rh, rt, ro. split; [|exact En]. unfold txidx_connect. rewrite txidx_connect_other; [exact E|].
+    intro Hi. unfold ids in Hi. apply in_map_iff in Hi. destruct Hi as (t' & Hid & Ht').
+    specialize (Hfresh t' Ht'). rewrite Hid in Hfresh. congruence.
+  - apply nth_error_None in En. exfalso. apply (Nat.lt_irrefl (length (t_outs rt))).
+    eapply Nat.le_lt_trans; [exact En | exact Hk].
+Qed.
